@@ -294,6 +294,11 @@ func (s *Schema) control() (err error) {
 		return fmt.Errorf("%T %w: %s", s.object, ErrStructureChanged, err)
 	}
 
+	// controlling index is the one of the fields
+	if err = s.ObjectIndex.describes(s.Fields); err != nil {
+		return
+	}
+
 	// controlling index in memory
 	if err = s.ObjectIndex.control(); err != nil {
 		return
